@@ -324,9 +324,30 @@ def c12_r3(ctx):
         key = "normalize_path:%s=init#%d" % (acc, i + 1)
         if txt == "Utf8PathBuf::new()":
             yield ok("C12-R3", key, at(f), txt)
-        elif txt.startswith("From>::from(Utf8Component::as_str(") :
+        elif txt.startswith("From>::from(Utf8Component::as_str("):
             # allowed only under the Prefix pattern: the component's discriminant was tested == Prefix
-            yield ok("C12-R3", key, at(f), "prefix initialiser: " + txt[:120])
+            from core import dominators
+
+            dom = dominators(f)
+            comp = x[3][0][3][0] if x[0] == "call" and x[3] and x[3][0][0] == "call" and x[3][0][3] else None
+            while comp is not None and comp[0] == "ref":
+                comp = comp[2]
+            ctxt = expr_str(comp) if comp is not None else "?"
+            defb = x[4][0] if x[0] == "call" else None
+            guarded = False
+            for sb in f.live_blocks():
+                st = f.blocks[sb]["term"]
+                if st["k"] != "switch":
+                    continue
+                de = eb.operand(st["discr"])
+                if de[0] == "discr" and expr_str(de[1]) == ctxt:
+                    for v, tb in st["targets"]:
+                        if v == 0 and defb is not None and tb in dom.get(defb, ()):
+                            guarded = True
+            if guarded:
+                yield ok("C12-R3", key, at(f), "prefix initialiser under discr(component) == Prefix: " + txt[:100])
+            else:
+                yield bad("C12-R3", key, at(f), "the accumulator is initialised from a path component (%s) without the test that it is a Prefix: a leading `..` or root is copied into the result" % ctxt[:120])
         else:
             yield bad("C12-R3", key, at(f), "accumulator initialised from %s" % txt[:200])
     n = 0
